@@ -41,6 +41,14 @@ def run(rep, f, c, rule, want=lambda n: True):
                         ok, how = True, 'position == src.len()'
                     if k == 'bool' and e[0] == 'bin' and e[1] == 'Lt' and e[3] == ('len', ('loc', 2)) and v is False:
                         ok, how = True, '!(position < src.len())'
+                    # the same relation in its other spellings: !(position != src.len()), src.len() == position, src.len() <= position,
+                    # !(src.len() > position), !(src.len() != position)
+                    if k == 'bool' and e[0] == 'bin' and isinstance(v, bool):
+                        L2 = ('len', ('loc', 2))
+                        if e[3] == L2 and e[2] != L2 and ((e[1] == 'Ne' and v is False)):
+                            ok, how = True, '!(position != src.len())'
+                        if e[2] == L2 and e[3] != L2 and e[3][0] != 'len' and ((e[1] in ('Eq', 'Le') and v is True) or (e[1] in ('Ne', 'Gt') and v is False)):
+                            ok, how = True, 'src.len() <= position'
                     if k == 'bool' and e[0] == 'fld' and e[2] == 'emitted' and v is True:
                         ok, how = True, 'replacement decoder already emitted its error (consumes everything)'
                 if not ok:
